@@ -266,7 +266,7 @@ pub fn fuzz_serde(data: &[u8]) {
     let r: Result<serdechk::SCase> = (|| {
         let none: bool = u.ratio(1u8, 8u8)?;
         let option_flavour: bool = u.arbitrary()?;
-        Ok(serdechk::SCase { value: if none { None } else { Some(sv(&mut u, 0)?) }, option_flavour: option_flavour || none })
+        Ok(serdechk::SCase { pointee: if u.ratio(1u8, 5u8)? { u.int_in_range(1u8..=8)? } else { 0 }, value: if none { None } else { Some(sv(&mut u, 0)?) }, option_flavour: option_flavour || none })
     })();
     let Ok(c) = r else { return };
     if let Err(m) = serdechk::run_case(&c) {
